@@ -1603,6 +1603,21 @@ static void compile_expr(CG *cg, ASTNode *node) {
                 default:
                     cg_error(cg, node->line, "unsupported unary operator %d", op);
             }
+        } else if (argc == 2 && (op == TOKEN_AND || op == TOKEN_OR)) {
+            /* Short-circuit: the right operand is evaluated only when the left one
+             * does not already decide the result (specification section 5).
+             *   and:  a; JMP_FALSE F; b; CAST_BOOL; JMP E; F: PUSH_BOOL 0; E:
+             *   or:   a; JMP_TRUE  T; b; CAST_BOOL; JMP E; T: PUSH_BOOL 1; E:   */
+            compile_expr(cg, args[0]);
+            uint32_t jc_instr = cg->code_size;
+            uint32_t jc_off = emit_op(cg, op == TOKEN_AND ? OP_JMP_FALSE : OP_JMP_TRUE, (int32_t)0);
+            compile_expr(cg, args[1]);
+            emit_op(cg, OP_CAST_BOOL);
+            uint32_t je_instr = cg->code_size;
+            uint32_t je_off = emit_op(cg, OP_JMP, (int32_t)0);
+            patch_jump(cg, jc_off + 1, jc_instr, cg->code_size);
+            emit_op(cg, OP_PUSH_BOOL, op == TOKEN_AND ? 0 : 1);
+            patch_jump(cg, je_off + 1, je_instr, cg->code_size);
         } else if (argc == 2) {
             /* Binary operators */
             compile_expr(cg, args[0]);
